@@ -38,6 +38,9 @@ def codec : P Verdict := do
       if Spec.wf reg && !Spec.wf r' then errs := errs ++ ["C01: decoding the library's own output of a well-formed registry is not well-formed"]
     | _ => errs := errs ++ ["C06: the V14 layout decoder rejects or over/under-reads the library's bytes"]
     if !rt then errs := errs ++ ["C07: library decode(encode(r)) != r or input not fully consumed"]
+    -- the layout decoder reads these bytes back as `reg` (checked above; `C07.decode_encode` for every registry):
+    -- a library decoder that does not is in disagreement with the layout
+    if !rt then errs := errs ++ ["C06: the library decoder does not read back bytes that the V14 layout decoder reads as the encoded registry"]
     if !rt && Spec.wf reg then errs := errs ++ ["C01: decoding the library's own output of a well-formed registry does not give it back"]
     if !det then errs := errs ++ ["C07: encoding twice gave different bytes"]
     pure (verdictOf errs nt)
